@@ -73,3 +73,22 @@ pub fn out_line(s: &str) {
         off += n as usize;
     }
 }
+
+
+/// A sink that implements nothing but `write` / `flush` (so `write_vectored`, `write_all` ... are
+/// the trait's defaults) and accepts at most `max` bytes per call.
+pub struct PlainWriter {
+    pub out: Vec<u8>,
+    pub max: usize,
+}
+
+impl std::io::Write for PlainWriter {
+    fn write(&mut self, buf: &[u8]) -> std::io::Result<usize> {
+        let n = buf.len().min(self.max.max(1));
+        self.out.extend_from_slice(&buf[..n]);
+        Ok(n)
+    }
+    fn flush(&mut self) -> std::io::Result<()> {
+        Ok(())
+    }
+}
